@@ -11,18 +11,18 @@ import (
 // SimChain is a Bitcoin-like chain: best chain of blocks, mempool, spent set.
 // Spends of registered swap outputs are verified (script + relative lock).
 type SimChain struct {
-	w       *World
-	Name    string
-	Base    uint32 // height of blocks[0]
-	blocks  []*Block
-	Txs     map[string]*ChainTx
-	mempool []string
-	confAt  map[string]uint32 // txid -> height (best chain)
-	spentBy map[string]string // "txid:vout" -> spending txid (mempool or chain)
-	fork    int
-	Swaps   map[string]*SwapOutput // "txid:vout" -> registered swap output
-	stalled bool
-	minedAt []time.Duration
+	w            *World
+	Name         string
+	Base         uint32 // height of blocks[0]
+	blocks       []*Block
+	Txs          map[string]*ChainTx
+	mempool      []string
+	confAt       map[string]uint32 // txid -> height (best chain)
+	spentBy      map[string]string // "txid:vout" -> spending txid (mempool or chain)
+	fork         int
+	Swaps        map[string]*SwapOutput // "txid:vout" -> registered swap output
+	stalled      bool
+	minedAt      []time.Duration
 	subs         []headerSub
 	byScriptHash map[string][]string // electrum script hash -> txids paying to it
 }
@@ -34,35 +34,35 @@ type Block struct {
 }
 
 type ChainTx struct {
-	ID   string
-	Hex  string
-	Ins  []string // outpoints spent
-	NOut int
-	By   int    // node that broadcast it (-1 unknown)
-	Kind string // opening, spend, other
+	ID         string
+	Hex        string
+	Ins        []string // outpoints spent
+	NOut       int
+	By         int    // node that broadcast it (-1 unknown)
+	Kind       string // opening, spend, other
 	OutScripts [][]byte
 }
 
 // SwapOutput is ground truth about an opening output, known by construction.
 type SwapOutput struct {
-	Chain     string
-	TxID      string
-	Vout      uint32
-	Owner     int // maker node id
-	Amount    uint64
-	Script    []byte // witness script
-	PkScript  []byte
-	CSV       uint32
-	SwapID    string
-	TakerPub  string
-	MakerPub  string
-	PayHash   string
-	BlindPriv []byte // liquid: blinding private key the output was blinded to
+	Chain           string
+	TxID            string
+	Vout            uint32
+	Owner           int // maker node id
+	Amount          uint64
+	Script          []byte // witness script
+	PkScript        []byte
+	CSV             uint32
+	SwapID          string
+	TakerPub        string
+	MakerPub        string
+	PayHash         string
+	BlindPriv       []byte // liquid: blinding private key the output was blinded to
 	ValueCommitment []byte // liquid: serialized value (explicit or commitment) for sighash
-	Explicit  bool
-	AssetOK   bool // liquid: output really carries the policy asset
-	SpentBy   string
-	SpendPath string
+	Explicit        bool
+	AssetOK         bool // liquid: output really carries the policy asset
+	SpentBy         string
+	SpendPath       string
 }
 
 func newSimChain(w *World, name string, base uint32) *SimChain {
